@@ -9,7 +9,7 @@ RULE = ("histories on one thread without scheduler reset: a first computation = 
         "every placement of <=k deviations from the fault menu (raise, failing/unset items, failing flush incl. "
         "BaseException, lazily computed futures, ErrorFuture, non-futures, NonAsyncContext, contexts whose "
         "pause/resume raise, synchronous re-entry nested to depth 3, try) under every flush schedule and, in a second "
-        "pass, with the runaway-recursion guard tripped (MAX_TASK_STACK_SIZE 2..6); followed by three canary "
+        "pass, with the runaway-recursion guard tripped (MAX_TASK_STACK_SIZE 2..6); followed by four canary "
         "computations. Oracle: get_active_task() at every step/probe/after nested calls, None afterwards; empty "
         "scheduler stack; no body of an earlier computation runs later; every canary observation equals the same "
         "history with scheduler.reset() inserted before it (differential). non-trivial = first computations that "
@@ -36,6 +36,9 @@ def _t(*st):
 
 
 CANARIES = [
+    # first: awaits only the lowest-ranked kind - any batch of kind a/b left scheduled by the earlier computation would be
+    # flushed before it (it must come first: a later canary that uses kinds a/b absorbs such a batch in both variants)
+    ("P", _t(("y", ("i", "c", "ok"))), (), ()),
     ("P", _t(("y", ("L", (("c", _t(("y", IA), ("y", IB))), ("c", _t(("y", IB), ("y", IA)))))), ("probe",)), (), ()),
     ("P", _t(("with", "S0", (("y", ("L", (("c", _t(("with", "S0", (("y", IA), ("probe",))))),
                                            ("c", _t(("probe",), ("y", IB), ("probe",)))))),))), (), ()),
@@ -128,5 +131,5 @@ def replay(case, env):
 
 
 def finish(acc, tier):
-    return {"bounds": {"ladder": LADDER[tier], "menu": MENU, "guard sizes": GUARD_SIZES[tier], "canaries": 3,
-                       "history length": 4, "categories judged": CATS}}
+    return {"bounds": {"ladder": LADDER[tier], "menu": MENU, "guard sizes": GUARD_SIZES[tier], "canaries": len(CANARIES),
+                       "history length": 1 + len(CANARIES), "categories judged": CATS}}
